@@ -44,13 +44,22 @@ func getRamainsSum(states *[]types.State) sdk.DecCoins {
 
 func (k Keeper) PrepareCoinsToDistribute(sources []*types.Account, ctx sdk.Context, states []types.State, subDistributorName string) sdk.DecCoins {
 	allCoinsToDistribute := sdk.NewDecCoins()
+	// The main account's own inflow is its balance minus the recorded remains. It has to be taken before any other
+	// source is swept into the main account (or has its remains re-queued), otherwise those coins are counted twice.
 	for _, source := range sources {
-		var coinsToDistribute sdk.DecCoins
 		if source.Type == types.Main {
-			coinsToDistribute = k.prepareCoinToDistributeForMainAccount(ctx, states, subDistributorName)
-		} else {
-			coinsToDistribute = k.prepareCoinToDistributeForNotMainAccount(ctx, *source, states, subDistributorName)
+			coinsToDistribute := k.prepareCoinToDistributeForMainAccount(ctx, states, subDistributorName)
+			if len(coinsToDistribute) > 0 {
+				allCoinsToDistribute = allCoinsToDistribute.Add(coinsToDistribute...)
+			}
+			break
 		}
+	}
+	for _, source := range sources {
+		if source.Type == types.Main {
+			continue
+		}
+		coinsToDistribute := k.prepareCoinToDistributeForNotMainAccount(ctx, *source, states, subDistributorName)
 
 		if len(coinsToDistribute) == 0 {
 			continue
